@@ -193,6 +193,13 @@ def _import_file(
         import_request_done(req, "bad_name")
         return
 
+    # Nor anything inside one of alpenhorn's own temporary directories
+    # (left behind by an interrupted transfer)
+    if any(part.startswith(".alpentemp") for part in path.parts[:-1]):
+        log.info(f'Not importing "{path}": transfer artefact.')
+        import_request_done(req, "bad_name")
+        return
+
     # Wait for file to become ready
     while not node.io.ready_path(path):
         log.info(
